@@ -18,7 +18,11 @@ RULE = ("Hypothesis constructs valid script models with every construct (metadat
         "exactly and of the same kind; symbolic arguments equal as functions at 3 sample points, relative 1e-9). "
         "Non-trivial = >=3 operations and two of {computed NumPy scalar in list or modes, array argument, parameter, register "
         "expression, keyword list, options, loop}. Distinct = SHA-1 of the script text. Scripts outside the value domain "
-        "(non-finite / out-of-domain arithmetic per the reference) are discarded and counted.")
+        "(non-finite / out-of-domain arithmetic per the reference) are discarded and counted."
+        " Real zeros keep their sign (-0.0 / 0.0 in scalars, lists, options, float arrays; complex parts exempt);"
+        " generated values include signed zeros, decimal approximations of multiples of pi, integer literals beyond"
+        " the 64-bit range, arrays whose elements are parameters named like the entries of an array-valued parameter"
+        " in another order, and read/redeclare/read sequences of arrays.")
 ASSUMPTIONS = ["the generated scripts are valid (reference interpreter accepts them; C02 checks the loader against it)"]
 BUDGET = {"quick": (1600, 4), "thorough": (48000, 16)}
 
